@@ -16,6 +16,15 @@
     1..3 accessories x services x characteristics, linked-service lists with every byte value) are
     run through the real code; (value, bytes, decoded value) records are validated by TLC against
     TlvStruct_Trace.
+(H) decoding over a history of calls (spec/codec/TlvStructHist.tla: a heap of decoded objects must refine value
+    semantics - DecodeIsFunctionOfBytes; TLC verifies it for fresh objects and refutes the memoised-decode deviation):
+    for every exported case the first result is overwritten completely and the same bytes are decoded again, every
+    message node of a result gets its own write and must read back its own value (identical sub-messages do not
+    share state); struct-valued characteristics are read, edited and read again; seeded decode/write/observe
+    histories and the real CoAP get_accessory_info on reference-encoded bridge databases with byte-identical
+    accessories (a value per (accessory, characteristic) held by the reference accessory, two connections, fresh
+    re-decodes) are recorded and validated by TLC against TlvStructHist_Trace.  Only wrong field values count: a
+    cache that hands out fresh copies, or immutable messages, are quiet.
 """
 from __future__ import annotations
 
@@ -34,6 +43,9 @@ from harness.refacc import tlv as rtlv
 # listed in known_findings.json instead of being repaired)
 SIGNATURES = {"packed-ids": "tlv8: Sequence[int] field (packed id list) fed to the TLV list splitter",
               "dup-tag": "meshcop: two fields declared with the same TLV type"}
+
+
+HISTORY_REASONS = {'identical sub-messages inside one decoded message share state (a write to one changes the other)', 'decoded message left the message type after writes', 'decode / write / decode history raised', 'accessory database left the message type after get_accessory_info', 'get_accessory_info raised on a reference-encoded bridge database', 'decode() of the same bytes after an earlier result was modified raised / left the message type', 'array-valued characteristic: 2nd read after the 1st result was edited != encoded items', 'get_accessory_info reports a value the reference accessory does not hold for that characteristic', 'struct-valued characteristic: 2nd read after the 1st result was edited != encoded message', 'decode() of the same bytes after an earlier result was modified != message'}
 
 
 # ------------------------------------------------------------------ reporting (grouped)
@@ -71,8 +83,10 @@ class _Reporter:
             return f"packed integer list ({ids}: Sequence[int])", "packed-ids"
         return s["name"], None
 
-    def fail(self, reason, case, detail):
+    def fail(self, reason, case, detail, history=False):
         cause, code = self.cause(case)
+        if history or reason in HISTORY_REASONS or reason.startswith("decode history rejected"):     # the first decode of these bytes was right: not one of the recorded per-message findings
+            cause, code = "decode over a history of calls", None
         key = (cause, reason)
         g = self.groups.setdefault(key, {"n": 0, "first": None, "detail": detail, "classes": set(), "size": None,
                                          "sig": SIGNATURES.get(code)})
@@ -144,9 +158,70 @@ def _replay(ctx, rep, classes, schemas, case, extra=None):
     if dec != inst:
         rep.fail("decoded dataclass compares unequal to the encoded one", slim, f"{dec!r:.200} != {inst!r:.200}")
         return
+    if not _history_probe(ctx, rep, classes, schemas, slim, cls, inst, dec):
+        return
     if extra:
         extra(slim, inst)
     ctx.trace_ok()
+
+
+def _history_probe(ctx, rep, classes, schemas, slim, cls, inst, first):
+    """Decoding is a function of the bytes over a history (spec/codec/TlvStructHist.tla):
+    (1) the first result is overwritten completely, the same bytes are decoded again -> still the specified value;
+    (2) every message node of the new result gets its own write; each node must read back its own value
+        (identical sub-messages inside one message do not share state)."""
+    c, val, wire = slim["c"], slim["val"], slim["wire"]
+    rng = ctx.rng
+    try:
+        S.scribble(rng, classes, schemas, c, first)
+        second = cls.decode(wire)
+        got = S.from_instance(classes, schemas, c, second)
+    except Exception as ex:  # noqa: BLE001
+        rep.fail("decode() of the same bytes after an earlier result was modified raised / left the message type", slim,
+                 f"{type(ex).__name__}: {ex}")
+        return False
+    if got != val or second != inst:
+        k = [k for k in range(len(val)) if got[k] != val[k]]
+        rep.fail("decode() of the same bytes after an earlier result was modified != message", slim,
+                 (f"field {schemas[c - 1]['fields'][k[0]]['name']}: decoded {str(got[k[0]])[:100]}, encoded {str(val[k[0]])[:100]}" if k
+                  else f"library state differs: {second!r:.160}") + f" (wire {_short(wire)})")
+        return False
+    try:
+        nodes = S.node_paths(schemas, c, S.node_of(classes, schemas, c, second))
+        if len(nodes) > 1:
+            written = []
+            for n, (path, nc, node) in enumerate(nodes):
+                ws = [w for w in S.possible_writes(rng, classes, schemas, nc, node) if w[0] in ("x", "s")]
+                ws = [w for w in ws if w[0] == "x"] or [w for w in ws if schemas[nc - 1]["fields"][w[1] - 1]["kind"] in ("bytes", "str")] or ws
+                if not ws:
+                    written.append(None)
+                    continue
+                kind, j, _ = ws[0]
+                fs = schemas[nc - 1]["fields"][j - 1] if j else None
+                w = [(n * 7 + 1) % 256] * (fs["w"] if fs and fs["kind"] == "int" else 1) if kind == "x" or fs["kind"] != "enum" else [fs["vals"][n % len(fs["vals"])]]
+                if fs and fs["kind"] == "str":
+                    w = [97 + n % 26, 48 + (n // 26) % 10]
+                try:
+                    S.apply_write(classes, schemas, c, second, path, kind, j, w)
+                except S.NotWritable:               # immutable messages cannot share state observably
+                    written.append(None)
+                    continue
+                written.append((kind, j, w))
+            after = {tuple(map(tuple, p)): nd for p, _, nd in S.node_paths(schemas, c, S.node_of(classes, schemas, c, second))}
+            for (path, nc, node), wr in zip(nodes, written):
+                if wr is None:
+                    continue
+                kind, j, w = wr
+                nd = after.get(tuple(map(tuple, path)))
+                seen = None if nd is None else (nd["x"] if kind == "x" else nd["f"][j - 1])
+                if seen != [w]:
+                    rep.fail("identical sub-messages inside one decoded message share state (a write to one changes the other)", slim,
+                             f"wrote {w} at node {path}, it now reads {seen} (wire {_short(wire)})")
+                    return False
+    except S.Unrepresentable as ex:
+        rep.fail("decoded message left the message type after writes", slim, str(ex))
+        return False
+    return True
 
 
 # ------------------------------------------------------------------ struct-valued characteristics
@@ -333,6 +408,167 @@ def _project_to_dict(td):
     return out
 
 
+# ------------------------------------------------------------------ (C') histories of decode calls
+def _dup_items(rng, schemas, c, val):
+    """Make list items byte-identical (identical sub-messages inside one message)."""
+    out = []
+    for f, o in zip(schemas[c - 1]["fields"], val):
+        if not o:
+            out.append(o)
+        elif f["kind"] == "struct":
+            out.append([_dup_items(rng, schemas, f["inner"], o[0])])
+        elif f["kind"] == "seq" and o[0]:
+            items = [_dup_items(rng, schemas, f["inner"], it) for it in o[0]]
+            if rng.random() < 0.7:
+                items = [items[0]] * rng.choice([2, 3]) + (items[1:] if rng.random() < 0.3 else [])
+            out.append([items])
+        else:
+            out.append(o)
+    return out
+
+
+def _history(rng, classes, schemas, c, wire, nmut):
+    """decode / write / observe on the real code; returns the list of operations for TlvStructHist_Trace."""
+    cls = classes[c - 1]
+    ops, res = [], []
+
+    def dec():
+        res.append(cls.decode(wire))
+        ops.append(["D"])
+
+    def obs(k):
+        ops.append(["O", k, S.node_of(classes, schemas, c, res[k - 1])])
+
+    def mut(k):
+        nodes = S.node_paths(schemas, c, S.node_of(classes, schemas, c, res[k - 1]))
+        path, nc, nd = rng.choice(nodes)
+        ws = S.possible_writes(rng, classes, schemas, nc, nd)
+        if not ws:
+            return
+        kind, j, w = rng.choice(ws)
+        try:
+            S.apply_write(classes, schemas, c, res[k - 1], path, kind, j, w)
+        except S.NotWritable:
+            return
+        ops.append(["M", k, path, kind, j, w])
+
+    dec(); obs(1)
+    for _ in range(nmut):
+        mut(1)
+    obs(1); dec(); obs(2); obs(1)
+    for _ in range(nmut):
+        mut(rng.choice([1, 2]))
+    obs(1); obs(2); dec(); obs(3); obs(2); obs(1)
+    return ops
+
+
+def _bridge_value(rng, schemas, idx, na, ns, nc):
+    """A bridge database whose accessories are byte-identical except for the accessory id."""
+    def build(name, d):
+        return [[d[f["name"]]] if f["name"] in d else [] for f in schemas[idx[name] - 1]["fields"]]
+    svcs = []
+    iid = 15
+    for s in range(ns):
+        iid += 1
+        sid = iid
+        chars = []
+        for _ in range(nc):
+            iid += 1
+            d = {"type": [rng.randrange(256), 0] + [0] * 14, "instance_id": [iid % 256, iid // 256], "properties": [0x90, 0],
+                 "presentation_format": [0x08, 0, 0, 0x27, 1, 0, 0]}           # uint32, secure read + notify
+            chars.append(build("Pdu09CharacteristicContainer", {"characteristic": build("Pdu09Characteristic", d)}))
+        sd = {"type": [0x8A + s, 0] + [0] * 14, "instance_id": [sid % 256, sid // 256], "_characteristics": chars, "properties": [0, 0]}
+        svcs.append(build("Pdu09ServiceContainer", {"service": build("Pdu09Service", sd)}))
+    accs = [build("Pdu09AccessoryContainer", {"accessory": build("Pdu09Accessory", {"instance_id": [a + 2, 0], "_services": svcs})})
+            for a in range(na)]
+    return build("Pdu09Database", {"_accessories": accs})
+
+
+class _RefAccessoryCtx:
+    """Fake encryption context of a CoAP connection: the reference accessory behind it holds a value per
+    (accessory, service, characteristic) and answers get_accessory_info's reads in the order they are made
+    (the CoAP read carries no accessory id; the bridge serves accessory after accessory, service after service)."""
+    coap_ctx = object()
+
+    def __init__(self, body, held):
+        self.body, self.held, self.calls = body, held, 0
+
+    async def post(self, opcode, iid, data):
+        return len(self.body), self.body
+
+    async def post_all(self, opcode, iids, data):
+        from aiohomekit.controller.coap.pdu import PDUStatus
+        row = self.held[self.calls]
+        self.calls += 1
+        out = []
+        for k, _ in enumerate(iids):
+            v = row[k] if k < len(row) else None
+            out.append(PDUStatus.INVALID_REQUEST if v is None else bytes([1, len(v)]) + bytes(v))
+        return out
+
+
+def _bridge_history(ctx, rep, rng, classes, schemas, idx, na, ns, nc):
+    """(ii) the real get_accessory_info on a reference-encoded bridge database with byte-identical accessories."""
+    import asyncio
+    from aiohomekit.controller.coap.connection import CoAPHomeKitConnection
+    c = idx["Pdu09Database"]
+    val = _bridge_value(rng, schemas, idx, na, ns, nc)
+    wire = S.ref_encode(schemas, c, val, "acc", "decl")
+    slim = {"c": c, "class": schemas[c - 1]["name"], "mode": "acc", "pol": "decl", "val": val, "wire": wire}
+    ctx.case(("bridge", na, ns, nc, json.dumps(val)))
+
+    def fld(name, field):
+        return [f["name"] for f in schemas[idx[name] - 1]["fields"]].index(field) + 1
+    p_acc, p_a = fld("Pdu09Database", "_accessories"), fld("Pdu09AccessoryContainer", "accessory")
+    p_svcs, p_s = fld("Pdu09Accessory", "_services"), fld("Pdu09ServiceContainer", "service")
+    p_chars, p_c = fld("Pdu09Service", "_characteristics"), fld("Pdu09CharacteristicContainer", "characteristic")
+    ops = []
+    infos = []
+    for conn_no in (1, 2):                          # two connections to identical accessories (or a reconnect)
+        held = [[None if rng.random() < 0.25 else [rng.randrange(256) for _ in range(4)] for _ in range(nc)]
+                for _ in range(na * ns)]
+        conn = CoAPHomeKitConnection(None, "2001:db8::17", 5683)
+        conn.enc_ctx = _RefAccessoryCtx(wire, held)
+        try:
+            listed = asyncio.run(conn.get_accessory_info())
+        except Exception as ex:  # noqa: BLE001
+            rep.fail("get_accessory_info raised on a reference-encoded bridge database", slim, f"{type(ex).__name__}: {ex}")
+            return None
+        infos.append(conn.info)
+        k = len(infos)
+        ops.append(["D"])                           # the decode made by the library; then its own writes of the values read
+        want = {}
+        for a in range(na):
+            for sv in range(ns):
+                for ch in range(nc):
+                    v = held[a * ns + sv][ch]
+                    want[(a, sv, ch)] = v
+                    if v is not None:
+                        ops.append(["M", k, [[p_acc, a + 1], [p_a], [p_svcs, sv + 1], [p_s], [p_chars, ch + 1], [p_c]], "x", 0, v])
+        for j in range(1, k + 1):
+            try:
+                ops.append(["O", j, S.node_of(classes, schemas, c, infos[j - 1])])
+            except S.Unrepresentable as ex:
+                rep.fail("accessory database left the message type after get_accessory_info", slim, str(ex))
+                return None
+        # what the caller gets (to_dict) against what the reference accessory holds
+        for a, acc in enumerate(listed):
+            for sv, svc in enumerate(acc["services"]):
+                for ch, chd in enumerate(svc["characteristics"]):
+                    v = want[(a, sv, ch)]
+                    exp = None if v is None else int.from_bytes(bytes(v), "little")
+                    if chd.get("value") != exp:
+                        rep.fail("get_accessory_info reports a value the reference accessory does not hold for that characteristic", slim,
+                                 f"connection {conn_no}, aid {acc['aid']} iid {chd['iid']}: reported {chd.get('value')!r}, the accessory holds {exp!r}")
+                        return None
+        # a fresh decode of the same bytes carries no state of any connection
+        ops.append(["D"])
+        infos.append(classes[c - 1].decode(wire))
+        ops.append(["O", len(infos), S.node_of(classes, schemas, c, infos[-1])])
+    return {"c": c, "wire": list(wire), "ops": ops}
+
+
+
 # ------------------------------------------------------------------ the check
 def run(ctx):
     from aiohomekit import tlv8  # noqa: F401
@@ -345,6 +581,8 @@ def run(ctx):
                "fields whose annotation has no serialiser (float) are not encodable and stay unset",
                "conformant accessory = canonical TLV8 (255-byte fragments, an empty value is one empty item), fields in any "
                "order, lists joined by one 00 00 separator, 16-bit ids packed little endian",
+               "history reading: every decode returns the encoded values whatever happened to earlier results; writes are "
+               "ordinary attribute/list writes a caller or the library (raw_value) makes; object identity itself is not demanded",
                "integers are written in the machine's native byte order by struct.pack('H'...) - checked on this "
                "(little-endian) host only")
     if ctx.replay:
@@ -383,6 +621,14 @@ def run(ctx):
         # ---------------- (A) generic schemas, FRAG = 3, exhaustive within the profiles
         ctx.tlc("codec/TlvStruct_Toy", ctx.pick("TlvStruct_Toy_small.cfg", "TlvStruct_Toy_small_thorough.cfg"),
                 env=jvm, label="generic schemas FRAG=3", timeout=1500)
+
+        # ---------------- (A') histories of decode calls: heap of objects refines value semantics; memoised decode refuted
+        ctx.tlc("codec/TlvStructHist", ctx.pick("TlvStructHist_small.cfg", "TlvStructHist_thorough.cfg"), env=jvm,
+                label="decode history: DecodeIsFunctionOfBytes (fresh objects)", timeout=1500)
+        res = ctx.tlc("codec/TlvStructHist", "TlvStructHist_small_memo.cfg", env=jvm, expect_violation=True, require_cover=False,
+                      label="decode history: memoised decode is refuted (sensitivity)", timeout=600)
+        if res.ok or res.violation["name"] != "DecodeIsFunctionOfBytes":
+            raise MachineryError("TlvStructHist does not refute the memoised-decode deviation")
 
         # ---------------- (B1) generic schemas, FRAG = 255, replayed through real TLVStruct dataclasses
         out = os.path.join(tmp, "toy.ndjson")
@@ -423,23 +669,40 @@ def run(ctx):
                 joined = b"".join(v for _, v in rtlv.dec(slim["wire"]))
                 want = [S.to_instance(classes, schemas, classes.index(cls) + 1, it) for it in (slim["val"][0][0] if slim["val"][0] else [])]
                 try:
-                    got = _model_char(uuid, joined).value
+                    ch = _model_char(uuid, joined)
+                    got = ch.value
                 except Exception as ex:  # noqa: BLE001
                     rep.fail("array-valued characteristic: value raised", slim, f"{type(ex).__name__}: {ex}")
                     return
                 if list(got) != want:
                     rep.fail("array-valued characteristic: value != encoded items", slim, f"{got!r:.200} != {want!r:.200}")
+                    return
+                for it in got:                            # the consumer edits what it read ...
+                    S.scribble(ctx.rng, classes, schemas, classes.index(cls) + 1, it)
+                if isinstance(got, list):
+                    got.clear()
+                again = ch.value                          # ... the accessory's value has not changed
+                if list(again) != want:
+                    rep.fail("array-valued characteristic: 2nd read after the 1st result was edited != encoded items", slim,
+                             f"{again!r:.200} != {want!r:.200}")
                 return
             for uuid, is_array in struct_chars.get(c, ()):
                 if is_array or slim["mode"] != "lib":
                     continue
                 try:
-                    got = _model_char(uuid, slim["wire"]).value
+                    ch = _model_char(uuid, slim["wire"])
+                    got = ch.value
                 except Exception as ex:  # noqa: BLE001
                     rep.fail("struct-valued characteristic: value raised", slim, f"{type(ex).__name__}: {ex}")
                     continue
                 if got != inst:
                     rep.fail("struct-valued characteristic: value != encoded message", slim, f"{got!r:.200} != {inst!r:.200}")
+                    continue
+                S.scribble(ctx.rng, classes, schemas, c, got)      # the consumer edits what it read (to build a write request)
+                again = ch.value
+                if again != inst:
+                    rep.fail("struct-valued characteristic: 2nd read after the 1st result was edited != encoded message", slim,
+                             f"{again!r:.200} != {inst!r:.200}")
 
         n = 0
         for line in open(out):
@@ -615,6 +878,67 @@ def run(ctx):
                 rep.flush()
                 ctx.trace_ok(len(recs) - len(rejected))
             ctx.sample({"trace_record": {k: (v if k not in ("enc",) else _short(v)) for k, v in recs[len(recs) // 2].items()}})
+        # ---------------- (C') histories of decode calls on the real code -> TlvStructHist_Trace
+        hrecs = []
+        hist_classes = [k for k in real_idx if any(f["kind"] in ("struct", "seq") for f in schemas[k - 1]["fields"])]
+        for c in hist_classes + [k for k in real_idx if k not in hist_classes][:6]:
+            for _ in range(ctx.pick(6, 60)):
+                mode = "acc" if schemas[c - 1]["rx"] and rng.random() < 0.5 else "lib"
+                val = _dup_items(rng, schemas, c, _rand_struct(rng, schemas, c, mode, depth=ctx.pick(3, 6), big=0.08))
+                if rep._has_ids(c, val) or not any(val):
+                    continue                       # (packed id lists: separate, recorded finding)
+                if mode == "lib" and not S.ref_encode(schemas, c, val, "lib"):
+                    continue
+                wire = S.ref_encode(schemas, c, val, mode, "decl")
+                slim = {"c": c, "class": schemas[c - 1]["name"], "mode": mode, "pol": "decl", "val": val, "wire": wire}
+                ctx.case(("history", schemas[c - 1]["name"], json.dumps(val)))
+                try:
+                    hrecs.append({"c": c, "wire": list(wire), "ops": _history(rng, classes, schemas, c, wire, rng.randrange(1, 4)),
+                                  "slim": slim})
+                except Exception as ex:  # noqa: BLE001
+                    rep.fail("decode / write / decode history raised", slim, f"{type(ex).__name__}: {ex}")
+        if "Pdu09Database" in idx:
+            for na, ns, nc in ((2, 2, 2), (2, 1, 1), (3, 1, 2), (2, 2, 3), (3, 2, 1))[:ctx.pick(3, 5)]:
+                for _ in range(ctx.pick(1, 4)):
+                    r = _bridge_history(ctx, rep, rng, classes, schemas, idx, na, ns, nc)
+                    if r:
+                        r["slim"] = {"c": r["c"], "class": "Pdu09Database (bridge)", "mode": "acc", "pol": "decl",
+                                     "val": _bridge_value(rng, schemas, idx, 1, 1, 1), "wire": bytes(r["wire"])}
+                        hrecs.append(r)
+        rep.flush()
+        if hrecs:
+            hf = os.path.join(tmp, "hist.ndjson")
+            hv = os.path.join(tmp, "hist_verdicts.ndjson")
+            with open(hf, "w") as f:
+                for r in hrecs:
+                    f.write(json.dumps({"c": r["c"], "wire": r["wire"], "ops": r["ops"]}) + "\n")
+            res = ctx.tlc("codec/TlvStructHist_Trace", "TlvStructHist_Trace.cfg",
+                          env={"TRACE_FILE": hf, "SCHEMA_FILE": schema_file, "VERDICTS_OUT": hv, **jvm},
+                          expect_violation=True, require_cover=False, workers=4, timeout=1500,
+                          label="trace validation of decode histories")
+            bad = [json.loads(line) for line in open(hv) if line.strip()] if os.path.exists(hv) else []
+            if res.ok:
+                if bad:
+                    raise MachineryError("TlvStructHist_Trace accepted every history but exported rejected ones")
+                ctx.trace_ok(len(hrecs))
+            else:
+                if not bad:
+                    from harness import tlc as T
+                    ce = T.parse_counterexample(res.violation["trace"])
+                    tid = ce[-1][1].get("tid") if ce else None
+                    if not isinstance(tid, int):
+                        raise MachineryError(f"history validation failed without a record id: {res.violation['name']}")
+                    bad = [{"tid": tid, "bad": 0}]
+                for v in bad:
+                    r = hrecs[v["tid"] - 1]
+                    upto = [op if op[0] != "O" else ["O", op[1], "..."] for op in r["ops"][:max(v["bad"], 1)]]
+                    seen = r["ops"][v["bad"] - 1][2] if v["bad"] else None
+                    rep.fail("decode history rejected by TlvStructHist_Trace (what is read through a result is not the decoded value "
+                             "plus the writes made through that result)", r["slim"],
+                             f"history {json.dumps(upto)[:500]}; observed {json.dumps(seen)[:300]}")
+                rep.flush()
+                ctx.trace_ok(len(hrecs) - len(bad))
+            ctx.notes["decode_histories"] = len(hrecs)
         ctx.exhaustive = False
     finally:
         shutil.rmtree(tmp, ignore_errors=True)
